@@ -1,6 +1,8 @@
 //! rverif: executes scenario families against the real ractor code and records traces.
 //! All policy (what to validate, verdicts) lives in /verif/tools.
+mod cluster_io;
 mod explore;
+mod fam_clusterauth;
 mod fam_framing;
 mod fam_lifecycle;
 mod fam_mailbox;
@@ -58,6 +60,7 @@ fn main() {
         fam_mailbox::dispatch,
         fam_lifecycle::dispatch,
         fam_framing::dispatch,
+        fam_clusterauth::dispatch,
     ];
     for f in fams {
         if let Some(summary) = f(&cmd, &a) {
